@@ -80,7 +80,10 @@ def run(ck):
     # ---- O4
     ren = [n for n in rt.calls() if destructive_kind(n) == "rename"]
     ok = len(ren) == 1 and ren[0].get("callee") == "QFile::rename" and ren[0].get("static") and len(ren[0].get("args", [])) == 2
-    ck.ob("C09-O4", sitestr(rt, ren[0]) if ren else sitestr(rt), ok, "the rotated file is produced by static QFile::rename(old, new), which refuses an existing target" if ok else
+    raw_ok = len(ren) == 1 and strip_tmpl(ren[0].get("callee") or "") in ("rename", "std::rename") and len(ren[0].get("args", [])) == 2
+    # rename(2) replaces an existing target where QFile::rename refuses; the target is a fresh name (index = max + 1, O2 above), so both
+    # produce the rotated file by one rename of the active file
+    ck.ob("C09-O4", sitestr(rt, ren[0]) if ren else sitestr(rt), ok or raw_ok, "the rotated file is produced by one rename of the active file to the fresh name (%s)" % ("static QFile::rename" if ok else "rename(2)") if (ok or raw_ok) else
           "rotated file produced by %s" % [describe(r)[:60] for r in ren], key="rotate|rename-form")
     cps = [n for n in rt.calls() if name_is(n.get("callee"), ("QFile::copy",))]
     if cps:
